@@ -279,15 +279,13 @@ Proof.
   - destruct (c_fill c); simpl; auto. rewrite N. reflexivity.
 Qed.
 
-Definition lat_cell_ok (c : cell) : bool := match c_lat c with Some _ => c_lat_set c | None => true end.
-
-Lemma cell_side_one_entry_same : forall c k, k <> CImp -> (k = CLat -> lat_cell_ok c = true) ->
+Lemma cell_side_one_entry_same : forall c k, k <> CImp ->
   cell_side k (one_entry c k) = map WV (olist (api_value k c)).
 Proof.
-  intros c k N L. destruct k; try contradiction; simpl.
+  intros c k N. destruct k; try contradiction; simpl.
   - destruct (c_vol c); reflexivity.
   - destruct (c_u c) as [u|]; auto. destruct (Z.eqb u 0); reflexivity.
-  - specialize (L eq_refl). unfold lat_cell_ok in L. destruct (c_lat c); simpl; auto. rewrite L. reflexivity.
+  - destruct (c_lat c); reflexivity.
   - destruct (c_fill c); reflexivity.
 Qed.
 
@@ -327,7 +325,7 @@ Proof. intros. unfold prints_data. destruct (flag f k); reflexivity. Qed.
 
 (* the side conditions, per class *)
 Lemma clean_parts : forall s, clean s = true ->
-  imp_cell_ok s = true /\ imp_data_ok s = true /\ lat_ok s = true /\ vol_ok s = true /\ u_ok s = true /\ fill_ok s = true.
+  imp_cell_ok s = true /\ imp_data_ok s = true /\ fill_ok s = true.
 Proof.
   intros s H. unfold clean in H. repeat (apply andb_true_iff in H; destruct H as [? H]). auto 10.
 Qed.
@@ -339,12 +337,10 @@ Lemma tree_value_clean : forall s k c, clean s = true -> k <> CImp ->
   flag (s_flags s) k = true -> worth (s_cells s) k = true -> In c (s_cells s) ->
   tree_value k c = Ok (api_value k c).
 Proof.
-  intros s k c Hc N Hf Hw Hin. apply clean_parts in Hc. destruct Hc as [_ [_ [_ [Hv [Hu Hfl]]]]].
+  intros s k c Hc N Hf Hw Hin. apply clean_parts in Hc. destruct Hc as [_ [_ Hfl]].
   destruct k; try contradiction; simpl in *.
-  - unfold vol_ok in Hv. rewrite Hf, Hw in Hv. simpl in Hv. rewrite forallb_forall in Hv.
-    specialize (Hv c Hin). destruct (c_vol c); try discriminate; reflexivity.
-  - unfold u_ok in Hu. rewrite Hf, Hw in Hu. simpl in Hu. rewrite forallb_forall in Hu.
-    specialize (Hu c Hin). destruct (c_u c); try discriminate; reflexivity.
+  - destruct (c_vol c); reflexivity.
+  - destruct (c_u c); reflexivity.
   - reflexivity.
   - unfold fill_ok in Hfl. rewrite Hf, Hw in Hfl. simpl in Hfl. rewrite forallb_forall in Hfl.
     specialize (Hfl c Hin). apply negb_true_iff in Hfl. rewrite Hfl. reflexivity.
@@ -406,10 +402,7 @@ Proof.
       rewrite (has_information_api c k N).
       destruct (api_value k c) eqn:Ea; auto.
       rewrite cell_side_one_entry_same; auto.
-      * rewrite Ea. reflexivity.
-      * intros ->. apply clean_parts in Hc. destruct Hc as [_ [_ [Hl _]]].
-        unfold lat_ok in Hl. simpl in Hf. rewrite Hf in Hl. simpl in Hl.
-        rewrite forallb_forall in Hl. apply Hl. exact Hin.
+      rewrite Ea. reflexivity.
     + unfold data_side. rewrite (write_mods s w k Hwf Hw). rewrite (mod_cards_other s k Hc N).
       destruct (flag (s_flags s) k) eqn:Hf; simpl; auto.
       destruct (worth (s_cells s) k) eqn:Hwo; simpl.
@@ -420,18 +413,19 @@ Qed.
 
 (* ================================================================== IMP on the cell card: _format_tree *)
 (* [fmt_loop] without its in-place edits and without its errors, over the unchanged dict *)
-Fixpoint fmt_spec (g : list igroup) (keys printed : list particle) : list (list particle * Z) :=
+Fixpoint fmt_spec (mode : list particle) (g : list igroup) (keys printed : list particle) : list (list particle * Z) :=
   match keys with
   | [] => []
   | q :: ks =>
-      if mem q printed then fmt_spec g ks printed
+      if mem q printed then fmt_spec mode g ks printed
+      else if negb (mem q mode) then fmt_spec mode g ks printed
       else match ifind q g with
-           | None => fmt_spec g ks printed
+           | None => fmt_spec mode g ks printed
            | Some t =>
                let others := remove_p q (t_parts t) in
                let close := filter (fun o => Z.eqb (ival o g) (t_val t)) others in
                let far := filter (fun o => negb (Z.eqb (ival o g) (t_val t))) others in
-               (minus (t_parts t) far, t_val t) :: fmt_spec g ks (q :: close ++ printed)
+               (minus (t_parts t) far, t_val t) :: fmt_spec mode g ks (q :: close ++ printed)
            end
   end.
 
@@ -546,27 +540,39 @@ Lemma ival_ifind : forall x g t, ifind x g = Some t -> ival x g = t_val t.
 Proof. intros. unfold ival. rewrite H. reflexivity. Qed.
 
 (* --- fmt_loop computes fmt_spec when the partition condition holds and every key is a MODE particle *)
-Lemma fmt_loop_spec : forall mode g0, PC g0 -> subset (ikeys g0) mode = true ->
+Lemma imp_keys_ok_parts : forall mode g q t, imp_keys_ok mode g = true -> ifind q g = Some t ->
+  mem q mode = true -> forall o, In o (t_parts t) -> In o mode.
+Proof.
+  intros mode g q t H Hq Hm o Ho. unfold imp_keys_ok in H. rewrite forallb_forall in H.
+  destruct (ifind_In _ _ _ Hq) as [ks [Hin Hk]]. specialize (H _ Hin). simpl in H.
+  apply orb_true_iff in H. destruct H as [H|H].
+  - apply negb_true_iff in H. assert (existsb (fun q0 => mem q0 mode) ks = true).
+    { apply existsb_exists. exists q. split; auto. apply mem_In. exact Hk. }
+    congruence.
+  - rewrite subset_In in H. auto.
+Qed.
+
+Lemma fmt_loop_spec : forall mode g0, PC g0 -> imp_keys_ok mode g0 = true ->
   forall ks g printed,
     (forall x, ival x g = ival x g0) ->
     (forall x, mem x printed = false -> ifind x g = ifind x g0) ->
-    fmt_loop mode ks g printed = Ok (fmt_spec g0 ks printed).
+    fmt_loop mode ks g printed = Ok (fmt_spec mode g0 ks printed).
 Proof.
-  intros mode g0 HPC Hmode. rewrite subset_In in Hmode.
+  intros mode g0 HPC Hmode.
   induction ks as [|q ks IH]; intros g printed Hval Hfind; simpl; auto.
   destruct (mem q printed) eqn:Eq; auto.
+  destruct (mem q mode) eqn:Eqm; simpl; auto.
   rewrite (Hfind q Eq). destruct (ifind q g0) as [t|] eqn:Et; auto.
   assert (Hkeymode : forall o, In o (t_parts t) -> In o mode).
-  { intros o Ho. apply Hmode. apply mem_In. eapply pc_key; eauto. }
-  assert (Hq : In q mode) by (apply Hkeymode; eapply pc_self; eauto).
+  { intros o Ho. eapply imp_keys_ok_parts; eauto. }
+  assert (Hq : In q mode) by (apply mem_In; exact Eqm).
   (* the MODE check *)
   assert (C1 : andb (negb (match remove_p q (t_parts t) with [] => true | _ => false end))
-                    (orb (negb (mem q mode)) (existsb (fun o => negb (mem o mode)) (remove_p q (t_parts t)))) = false).
-  { apply andb_false_iff. right. apply orb_false_iff. split.
-    - apply negb_false_iff. apply mem_In. exact Hq.
-    - destruct (existsb _ _) eqn:EE; auto. apply existsb_exists in EE. destruct EE as [o [Ho Hn]].
-      apply negb_true_iff in Hn. apply In_remove_p in Ho. destruct Ho as [Ho _].
-      apply Hkeymode in Ho. apply mem_In in Ho. congruence. }
+                    (existsb (fun o => negb (mem o mode)) (remove_p q (t_parts t))) = false).
+  { apply andb_false_iff. right.
+    destruct (existsb _ _) eqn:EE; auto. apply existsb_exists in EE. destruct EE as [o [Ho Hn]].
+    apply negb_true_iff in Hn. apply In_remove_p in Ho. destruct Ho as [Ho _].
+    apply Hkeymode in Ho. apply mem_In in Ho. congruence. }
   rewrite C1.
   (* same close / far *)
   assert (EF : forall o, Z.eqb (ival o g) (t_val t) = Z.eqb (ival o g0) (t_val t)) by (intro o; rewrite Hval; reflexivity).
@@ -620,14 +626,15 @@ Proof. intros. unfold parts_of. rewrite H. reflexivity. Qed.
 Lemma parts_of_In_key : forall x g p, In p (parts_of x g) -> exists t, ifind x g = Some t /\ In p (t_parts t).
 Proof. intros x g p H. unfold parts_of in H. destruct (ifind x g) as [t|]; [eauto|contradiction]. Qed.
 
-Definition occ_term (g : list igroup) (printed : list particle) (p q : particle) : bool :=
-  andb (andb (negb (mem q printed)) (mem p (parts_of q g))) (Z.eqb (ival p g) (ival q g)).
+Definition occ_term (mode : list particle) (g : list igroup) (printed : list particle) (p q : particle) : bool :=
+  andb (andb (andb (negb (mem q printed)) (mem q mode)) (mem p (parts_of q g))) (Z.eqb (ival p g) (ival q g)).
 
 Definition closed (g : list igroup) (printed : list particle) : Prop :=
   forall x t, ifind x g = Some t -> mem x printed = false ->
   forall o, In o (t_parts t) -> ival o g = t_val t -> mem o printed = false.
 
 Section FmtSpec.
+Variable mode : list particle.
 Variable g : list igroup.
 Hypothesis HPC : PC g.
 
@@ -653,14 +660,17 @@ Proof.
 Qed.
 
 Lemma fmt_spec_occ : forall ks printed, closed g printed ->
-  forall p, imp_occ p (fmt_spec g ks printed) = if existsb (occ_term g printed p) ks then [ival p g] else [].
+  forall p, imp_occ p (fmt_spec mode g ks printed) = if existsb (occ_term mode g printed p) ks then [ival p g] else [].
 Proof.
   induction ks as [|q ks IH]; intros printed Hcl p; simpl; auto.
   destruct (mem q printed) eqn:Eq.
-  - assert (X : occ_term g printed p q = false) by (unfold occ_term; rewrite Eq; reflexivity).
+  - assert (X : occ_term mode g printed p q = false) by (unfold occ_term; rewrite Eq; reflexivity).
     rewrite X. simpl. apply IH; auto.
-  - destruct (ifind q g) as [t|] eqn:Et.
-    2:{ assert (X : occ_term g printed p q = false).
+  - destruct (mem q mode) eqn:Eqm; simpl.
+    2:{ assert (X : occ_term mode g printed p q = false) by (unfold occ_term; rewrite Eq, Eqm; reflexivity).
+        rewrite X. simpl. apply IH; auto. }
+    destruct (ifind q g) as [t|] eqn:Et.
+    2:{ assert (X : occ_term mode g printed p q = false).
         { unfold occ_term, parts_of. rewrite Et. simpl. rewrite andb_false_r. reflexivity. }
         rewrite X. simpl. apply IH; auto. }
     set (close := filter (fun o => Z.eqb (ival o g) (t_val t)) (remove_p q (t_parts t))).
@@ -689,11 +699,11 @@ Proof.
         assert (mem x printed' = true).
         { apply Hpr. right. split; auto. rewrite (ival_ifind _ _ _ Hx). congruence. }
         congruence. }
-    unfold imp_occ at 1. simpl. fold (imp_occ p (fmt_spec g ks printed')).
+    unfold imp_occ at 1. simpl. fold (imp_occ p (fmt_spec mode g ks printed')).
     rewrite IH by exact Hcl'.
     rewrite Hhead.
-    assert (X0 : occ_term g printed p q = andb (mem p (t_parts t)) (Z.eqb (ival p g) (t_val t))).
-    { unfold occ_term. rewrite Eq. simpl. rewrite (parts_of_ifind _ _ _ Et), Hvq. reflexivity. }
+    assert (X0 : occ_term mode g printed p q = andb (mem p (t_parts t)) (Z.eqb (ival p g) (t_val t))).
+    { unfold occ_term. rewrite Eq, Eqm. simpl. rewrite (parts_of_ifind _ _ _ Et), Hvq. reflexivity. }
     rewrite X0.
     (* the key fact *)
     assert (Key : forall q', mem q' printed = false -> mem p (parts_of q' g) = true -> ival p g = ival q' g ->
@@ -710,17 +720,18 @@ Proof.
       simpl. rewrite existsb_all_false; [rewrite EA2; reflexivity|].
       intros q' _. unfold occ_term.
       destruct (mem q' printed') eqn:E1; simpl; auto.
+      destruct (mem q' mode); simpl; auto.
       destruct (mem p (parts_of q' g)) eqn:E2; simpl; auto.
       destruct (Z.eqb (ival p g) (ival q' g)) eqn:E3; auto. apply Z.eqb_eq in E3.
       assert (Hq'p : mem q' printed = false).
       { destruct (mem q' printed) eqn:E; auto. assert (mem q' printed' = true) by (apply Hpr; auto). congruence. }
       assert (mem q' printed' = true) by (apply (Key q' Hq'p E2 E3); auto). congruence.
     + simpl. f_equal.
-      assert (X : existsb (occ_term g printed' p) ks = existsb (occ_term g printed p) ks).
+      assert (X : existsb (occ_term mode g printed' p) ks = existsb (occ_term mode g printed p) ks).
       { apply existsb_ext_in. intros q' _. unfold occ_term.
         destruct (mem p (parts_of q' g)) eqn:E2; [|rewrite !andb_false_r; reflexivity].
         destruct (Z.eqb (ival p g) (ival q' g)) eqn:E3; [|rewrite !andb_false_r; reflexivity].
-        apply Z.eqb_eq in E3. rewrite !andb_true_r. f_equal.
+        apply Z.eqb_eq in E3. rewrite !andb_true_r. f_equal. f_equal.
         destruct (mem q' printed) eqn:E1.
         - apply Hpr. auto.
         - destruct (mem q' printed') eqn:E4; auto.
@@ -729,20 +740,29 @@ Proof.
       rewrite X. reflexivity.
 Qed.
 
+Hypothesis Hmode : imp_keys_ok mode g = true.
+
 Theorem fmt_spec_all : forall p,
-  imp_occ p (fmt_spec g (ikeys g) []) = if mem p (ikeys g) then [ival p g] else [].
+  imp_occ p (fmt_spec mode g (ikeys g) []) = if andb (mem p (ikeys g)) (mem p mode) then [ival p g] else [].
 Proof.
   intro p. rewrite fmt_spec_occ.
   2:{ intros x t _ _ o _ _. reflexivity. }
-  destruct (mem p (ikeys g)) eqn:Ek.
-  - assert (existsb (occ_term g [] p) (ikeys g) = true).
-    { apply existsb_exists. exists p. split; [apply mem_In; exact Ek|].
-      unfold occ_term. simpl. apply ifind_key in Ek. destruct Ek as [t Et].
-      rewrite (parts_of_ifind _ _ _ Et). rewrite Z.eqb_refl, andb_true_r. apply mem_In. eapply pc_self; eauto. }
-    rewrite H. reflexivity.
+  destruct (mem p (ikeys g)) eqn:Ek; simpl.
+  - destruct (mem p mode) eqn:Em.
+    + assert (existsb (occ_term mode g [] p) (ikeys g) = true).
+      { apply existsb_exists. exists p. split; [apply mem_In; exact Ek|].
+        unfold occ_term. simpl. rewrite Em. simpl. apply ifind_key in Ek. destruct Ek as [t Et].
+        rewrite (parts_of_ifind _ _ _ Et). rewrite Z.eqb_refl, andb_true_r. apply mem_In. eapply pc_self; eauto. }
+      rewrite H. reflexivity.
+    + rewrite existsb_all_false; auto.
+      intros q _. unfold occ_term. simpl.
+      destruct (mem q mode) eqn:Eqm; simpl; auto.
+      destruct (mem p (parts_of q g)) eqn:E; auto. exfalso.
+      apply mem_In in E. destruct (parts_of_In_key _ _ _ E) as [t [Et Hp]].
+      pose proof (imp_keys_ok_parts mode g q t Hmode Et Eqm p Hp) as X. apply mem_In in X. congruence.
   - rewrite existsb_all_false; auto.
     intros q _. unfold occ_term. simpl.
-    destruct (mem p (parts_of q g)) eqn:E; auto. exfalso.
+    destruct (mem p (parts_of q g)) eqn:E; [|rewrite andb_false_r; reflexivity]. exfalso.
     apply mem_In in E. destruct (parts_of_In_key _ _ _ E) as [t [Et Hp]].
     rewrite (pc_key g HPC q t Et p Hp) in Ek. discriminate.
 Qed.
@@ -787,7 +807,7 @@ Theorem card_imp : forall mode f c,
   (flag f CImp = false -> imp_parts_ok (c_imp c) = true /\ imp_keys_ok mode (c_imp c) = true) ->
   exists es, card mode f c = Ok (c_num c, es) /\
     forall q, imp_cell_side q es =
-      if flag f CImp then [] else if mem q (ikeys (c_imp c)) then [ival q (c_imp c)] else [].
+      if flag f CImp then [] else if andb (mem q (ikeys (c_imp c))) (mem q mode) then [ival q (c_imp c)] else [].
 Proof.
   intros mode f c H. unfold card. rewrite prints_cell_flag.
   destruct (flag f CImp) eqn:Ef; cbn [negb].
@@ -799,7 +819,7 @@ Proof.
     eexists. split; [reflexivity|]. intro q.
     rewrite imp_cell_side_app, imp_cell_side_imps.
     rewrite imp_cell_side_others, app_nil_r.
-    + apply fmt_spec_all. exact HPC.
+    + apply fmt_spec_all; auto.
     + intros k e. destruct (andb _ _); [apply one_entry_EOne|intros []].
 Qed.
 
